@@ -1,6 +1,6 @@
 (* C11 - loaded-runner limit, one runner per model, reuse when compatible.   Theorems only. *)
 From Coq Require Import List ZArith NArith Bool Lia Arith.
-From V Require Import Sched.Lts Sched.Reach Sched.InvLock Sched.InvStruct Sched.InvCount Sched.Thm Sched.Examples.
+From V Require Import Sched.Lts Sched.Reach Sched.InvLock Sched.InvStruct Sched.InvCount Sched.Thm Sched.Refute Sched.Examples.
 Import ListNotations.
 
 (* Reuse: when the pending loop looks up a request's model and finds a runner, it goes on to needsReload for that
@@ -58,3 +58,15 @@ Example C11_nonvacuous :
   fixed cfg_on /\ 1 <= c_ngpus cfg_on /\
   exists s ev, run cfg_on (init_m 1) (firstn 10 ex_load_unload) = Some (s, ev) /\ nlive s = 1 /\ maxr s = 1 /\ In (ENew 0 (Some 0)) ev.
 Proof. split. reflexivity. split. simpl; auto. vm_compute. eexists; eexists; repeat split; try reflexivity. simpl. tauto. Qed.
+
+(* Over all configurations (including the scheduler as found) the bound and the one-runner-per-model clause are
+   false: a stale expired event removes a NEW runner from [loaded] (Sched/Refute.v, replayed from corpus/C11). *)
+Definition C11_bound_full : Prop := bound_full.
+Theorem C11_bound_refuted : ~ C11_bound_full.
+Proof. exact bound_refuted. Qed.
+Print Assumptions C11_bound_refuted.
+
+Definition C11_one_per_model_full : Prop := one_per_model_full.
+Theorem C11_one_per_model_refuted : ~ C11_one_per_model_full.
+Proof. exact one_per_model_refuted. Qed.
+Print Assumptions C11_one_per_model_refuted.
